@@ -479,6 +479,9 @@ def c13(out, tier, rng):
     out.assumptions += ["symmetries beyond 6 atoms are constructed by the driver and verified by TLC before use (Automorphism action)"]
 
 
+import checks_text  # noqa: E402  (registers C06-C09)
+
+
 # ---------------------------------------------------------------------------------------------- replay
 def replay(pid, path):
     rec = json.load(open(path))
